@@ -49,3 +49,12 @@ Proof.
   rewrite (attempt_prog_is_ref U g p1 isprefix start rest H1 Hwf Hw).
   symmetry. exact (attempt_prog_is_ref U g p2 isprefix start rest H2 Hwf Hw).
 Qed.
+
+(* ... and so do the whole token streams: lexing with the emitted program under the runtime loop of
+   Lexer::next equals lexing with the reference semantics, for every input, callback oracle,
+   boundary function and mode. *)
+Theorem C06_emitted_stream : forall U g p act fb (w : list byte) isprefix,
+  prog_ok g p = true -> wf_graph g = true -> bytes_ok w ->
+  lex_all (fun ip s r => fst (attempt_prog U p (PositiveMap.cardinal (g_states g)) ip s r)) act fb w isprefix
+  = lex_all (attempt_ref g) act fb w isprefix.
+Proof. exact emitted_stream. Qed.
